@@ -149,7 +149,7 @@ def run_par(v, e, agg, names, stages, perm, workers, via):
     return ",".join("%s=%s" % kv for kv in res.items())
 
 
-def run_br(v, e, ops):
+def run_br(v, e, ops, prior=()):
     from kaira.models.generic.branching import BranchingModel
     from kaira.models.base import BaseModel
     evaluated = []
@@ -180,6 +180,12 @@ def run_br(v, e, ops):
             outs.append("ok")
         except (ValueError, KeyError):
             outs.append("reject")
+    for pv in prior:            # earlier calls on the same object: which branch they took must not matter afterwards
+        try:
+            m(pv, True, e)
+        except RuntimeError:
+            pass
+    del evaluated[:]
     try:
         out, name = m(v, True, e)
         rs = "%s=%d" % (name, out)
@@ -407,6 +413,13 @@ def _cases(ctx):
         perms = feasible_perms(len(cur), len(cur))
         for perm in rng.sample(perms, min(len(perms), 4)) + [tuple(reversed(range(len(cur))))]:
             yield ("par", rng.randrange(1000), rng.randrange(3), rng.randrange(2), tuple(cur), tuple(stages), tuple(perm), None, ("hist", tuple(init), tuple(hops)))
+    # branching, several calls on one object (overlapping conditions: the branch an earlier call took must not be preferred later)
+    for _ in range(80 if ctx.thorough else 30):
+        opsb = ("a:s:%d:0:4" % rng.choice([2, 3]), "a:m:1:0:5", "a:l:%d:%d:6" % (rng.choice([4, 5]), rng.randrange(3)), "d:9")
+        prior = tuple(rng.randrange(0, 30) for _ in range(rng.randint(1, 3)))
+        yield ("br", rng.randrange(0, 30), rng.randrange(2), opsb, prior)
+        opsc = ("a:x:6:%d:4" % rng.randrange(6), "a:y:3:%d:5" % rng.randrange(3), "a:z:2:%d:6" % rng.randrange(2))
+        yield ("br", rng.randrange(0, 30), 0, opsc, prior)
     # branching
     for v in range(0, 12):
         yield ("br", v, 0, ("a:x:2:1:4", "a:y:3:0:5", "a:z:2:0:6", "d:9"))
@@ -465,7 +478,7 @@ def _line(c):
         _, v, e, agg, names, stages, perm, w, via = c
         return "par %d %d %d %s %s %s" % (v, e, agg, ",".join(names) or "-", ",".join(map(str, stages)) or "-", ",".join(map(str, perm)) or "-")
     if k == "br":
-        _, v, e, ops = c
+        v, e, ops = c[1], c[2], c[3]
         return "br %d %d %s" % (v, e, " ".join(ops))
     if k == "fb":
         return "fb %d %d %d" % (c[1], c[2], c[3])
@@ -485,7 +498,7 @@ def _impl(c):
         _, v, e, agg, names, stages, perm, w, via = c
         return run_par(v, e, agg, names, stages, perm, w, via)
     if k == "br":
-        return run_br(c[1], c[2], c[3])
+        return run_br(c[1], c[2], c[3], c[4] if len(c) > 4 else ())
     if k == "fb":
         return run_fb(c[1], c[2], c[3])
     if k == "macid":
